@@ -73,7 +73,7 @@ impl Property for C14 {
         "case = a generated lexicon over numerals (tagged 名詞,数詞 or with other POS), ',' '.', katakana words of 1-3 characters and neutral words, a configuration with \
          numeral joining (enableNormalize on/off/default) and/or katakana-OOV joining (minLength 0-4, both orders), MeCab + Simple OOV providers, optional input-text plugins; \
          1-4 texts mixing numerals with separators at both edges, katakana runs (also starting with characters that may not start a word) and dictionary words. The same \
-         text is analysed in mode C with and without the pathRewritePlugin list: boundaries(with) must be a subset of boundaries(without); a token covering k >= 2 plain \
+         text is analysed in modes C, A and B with and without the pathRewritePlugin list: boundaries(with) must be a subset of boundaries(without); a token covering k >= 2 plain \
          tokens must have the concatenation of their dictionary-side surfaces as surface and the POS the plugin prescribes; a token with the same range as one plain token \
          must be identical (word id, POS, forms) except for the documented single-token numeral normalisation, which keeps range, surface and POS. Non-trivial: at least \
          one merge happened."
@@ -157,7 +157,8 @@ impl Property for C14 {
             if f7_guard(&mut rep, &case.dic, &case.cfg, &text, ctx.strict) {
                 continue;
             }
-            let (mw, mo) = match (analyze(&with, &text, Mode::C, None), analyze(&without, &text, Mode::C, None)) {
+          for mode in MODES {
+            let (mw, mo) = match (analyze(&with, &text, mode, None), analyze(&without, &text, mode, None)) {
                 (Ok(a), Ok(b)) => (a, b),
                 (Err(_), Err(_)) => continue,
                 (Err(e), Ok(_)) => {
@@ -214,7 +215,9 @@ impl Property for C14 {
                 if covered.len() >= 2 {
                     rep.nontrivial = true;
                     rep.class("merge");
-                    if t.surface != cat {
+                    // in modes A / B the plain tokens are the split units of the C words the plugins saw: the joined token's
+                    // dictionary-side surface is built from those words, so this clause is judged in mode C only
+                    if mode == Mode::C && t.surface != cat {
                         rep.fail("merged-surface", format!("text {:?}: merged token {}..{} has dictionary-side surface {:?}, the merged tokens give {:?}", text, t.b, t.e, t.surface, cat));
                         return rep;
                     }
@@ -229,7 +232,7 @@ impl Property for C14 {
                     }
                 } else {
                     let o = &covered[0];
-                    if t == o {
+                    if t == o || mode != Mode::C {
                         continue;
                     }
                     // documented exception: single numeral token whose normalised form was replaced
@@ -246,6 +249,7 @@ impl Property for C14 {
                 rep.fail("token-dropped", format!("text {:?}: plain tokens from index {} on are not covered by the rewritten path", text, j));
                 return rep;
             }
+          }
         }
         rep
     }
